@@ -191,13 +191,34 @@ type replayFile struct {
 
 var crashRe = regexp.MustCompile(`(?m)^(panic: |fatal error: |runtime: )`)
 
+// runJob runs a job; if the worker dies in the middle of a batch, the remaining
+// indices are run in a new worker.
 func runJob(sc *scratch, cfg *propCfg, j job) []*runResult {
+	var all []*runResult
+	for {
+		rs := runJobOnce(sc, cfg, j)
+		all = append(all, rs...)
+		done := len(rs)
+		if j.count <= 1 || done >= j.count || done == 0 {
+			return all
+		}
+		last := rs[len(rs)-1]
+		if last.Verdict != "crash" && last.Verdict != "watchdog" && last.Verdict != "trouble" {
+			return all
+		}
+		j.run += done
+		j.count -= done
+	}
+}
+
+func runJobOnce(sc *scratch, cfg *propCfg, j job) []*runResult {
 	tmp, _ := os.CreateTemp(sc.dir, "out-")
 	outPath := tmp.Name()
 	tmp.Close()
 	os.Remove(outPath)
 	defer os.Remove(outPath)
 	defer os.Remove(outPath + ".params")
+	defer os.Remove(outPath + ".current")
 	cmd := exec.Command(sc.bin, "-test.run", "^TestWorker$", "-test.timeout", "0")
 	gmp := j.gmp
 	if gmp == 0 {
